@@ -23,6 +23,7 @@ func main() {
 		ops     = flag.Int("ops", 40, "operations per history")
 		only    = flag.Int("only", -1, "keep only this history index (debugging)")
 		claim   = flag.String("claim", "", "property whose oracle findings are violations (default: none)")
+		include = flag.String("include", "", "comma separated oracle families that also count as violations of the claimed property")
 	)
 	flag.Parse()
 	rep := hx.NewReport("incrtrace/"+*prop, *seed)
@@ -41,7 +42,7 @@ func main() {
 				continue
 			}
 			seenKind[sig] = true
-			if f.Prop != *claim {
+			if f.Prop != *claim && !strings.Contains(","+*include+",", ","+f.Prop+",") {
 				rep.Count("other-finding:" + sig)
 				continue
 			}
@@ -66,7 +67,7 @@ func main() {
 				strs[j] = o.String()
 				coq[j] = o.Coq()
 			}
-			rep.AddViolation(hx.Violation{Property: f.Prop, What: what, Key: "engine:" + sig + ":" + strings.Join(strs, ";"),
+			rep.AddViolation(hx.Violation{Property: *claim, What: what, Key: "engine:" + sig + ":" + strings.Join(strs, ";"),
 				Replay: map[string]any{"max_height": prof.MaxHeight, "ops": strs, "ops_gallina": coq, "kind": f.Kind, "history_index": i, "seed": *seed}})
 		}
 		rep.Evaluations++
